@@ -70,6 +70,9 @@ pub struct Case {
     /// service instances take 500 ms to drop while their worker thread unwinds from a panic
     #[serde(default)]
     pub slow_drop: bool,
+    /// which order of builder setters configures the server (all orders mean the same server)
+    #[serde(default)]
+    pub setters: u8,
 }
 
 #[derive(Clone, Copy, Debug, PartialEq, Eq)]
@@ -283,6 +286,8 @@ static UDS_SEQ: AtomicUsize = AtomicUsize::new(0);
 
 struct Run {
     handle: ServerHandle,
+    /// a clone of the handle taken before any command was issued (commands alternate between them)
+    handle2: ServerHandle,
     server_thread: Option<thread::JoinHandle<()>>,
     server_done: Arc<AtomicBool>,
     w: Arc<World>,
@@ -488,11 +493,19 @@ fn run_once_inner(c: &Case, prop: Prop) -> Result<Obs, (Fail, bool)> {
     let sd = server_done.clone();
     let w2 = w.clone();
     let timeout = c.shutdown_timeout_s.clamp(1, 30);
+    let setters = c.setters;
     let server_thread = thread::Builder::new()
         .name("l4-server".into())
         .spawn(move || {
             let r = actix_rt::System::new().block_on(async move {
-                let mut b = Server::build().workers(workers).max_concurrent_connections(limit).shutdown_timeout(timeout).disable_signals().backlog(64);
+                // the same configuration through different orders of the setters, with the
+                // unrelated setters (blocking-thread pool size, listen backlog) in between
+                let mut b = match setters % 4 {
+                    0 => Server::build().workers(workers).max_concurrent_connections(limit).shutdown_timeout(timeout).disable_signals().backlog(64),
+                    1 => Server::build().max_concurrent_connections(limit).worker_max_blocking_threads(8).workers(workers).backlog(128).shutdown_timeout(timeout).disable_signals(),
+                    2 => Server::build().backlog(16).worker_max_blocking_threads(1).shutdown_timeout(timeout).max_concurrent_connections(limit).workers(workers).disable_signals(),
+                    _ => Server::build().disable_signals().shutdown_timeout(timeout).workers(workers).max_concurrent_connections(limit).worker_max_blocking_threads(512),
+                };
                 for (i, l) in tcp {
                     let w3 = w2.clone();
                     b = match b.listen(format!("l{i}"), l, move || {
@@ -595,6 +608,7 @@ fn run_once_inner(c: &Case, prop: Prop) -> Result<Obs, (Fail, bool)> {
     }
     let initial_factories = w.factory_count.load(Ordering::SeqCst);
     let mut r = Run {
+        handle2: handle.clone(),
         handle,
         server_thread: Some(server_thread),
         server_done,
@@ -715,7 +729,7 @@ fn run_once_inner(c: &Case, prop: Prop) -> Result<Obs, (Fail, bool)> {
                 for c in r.clients.iter_mut() {
                     c.connected_while_paused = false;
                 }
-                block_on(r.handle.resume());
+                block_on(r.handle2.resume());
                 r.paused = false;
                 r.pause_settled = false;
             }
@@ -904,7 +918,7 @@ fn run_once_inner(c: &Case, prop: Prop) -> Result<Obs, (Fail, bool)> {
                 }
                 let t0 = Instant::now();
                 let fut1 = r.handle.stop(graceful);
-                let fut2 = if twice { Some(r.handle.stop(graceful)) } else { None };
+                let fut2 = if twice { Some(r.handle2.stop(graceful)) } else { None };
                 let timeout = Duration::from_secs(c.shutdown_timeout_s.clamp(1, 30));
                 // release the held connections a little later (graceful must wait for exactly that)
                 let release_after = Duration::from_millis(400);
@@ -1161,7 +1175,7 @@ pub mod gen {
                         ops.push(Op::Release { k });
                     }
                 }
-                Case { workers, limit: 12, listeners, shutdown_timeout_s: 1, ops, bind_mode, slow_drop: false }
+                Case { workers, limit: 12, listeners, shutdown_timeout_s: 1, ops, bind_mode, slow_drop: false, setters: (bind_mode as usize + workers) as u8 }
             })
     }
 
@@ -1252,7 +1266,7 @@ pub mod gen {
                     }
                     ops.push(s);
                 }
-                Case { workers, limit, listeners, shutdown_timeout_s, ops, bind_mode, slow_drop }
+                Case { workers, limit, listeners, shutdown_timeout_s, ops, bind_mode, slow_drop, setters: (bind_mode as usize + workers * 3 + limit) as u8 }
             })
     }
 }
